@@ -171,3 +171,11 @@ def real_models_routing_keys(tier, seed):
 
 
 BOUNDED = [real_models_routing_keys]
+
+
+# _execute_statement hands the serialized key parts to SimpleStatement.routing_key, whose setter (Statement._set_routing_key / _key_parts_packed) packs them into
+# Cassandra's composite encoding: that packing is C30's contract.  It is re-discharged here so that a change to it fails this property as well.
+from contracts import c30_binding as _C30
+_Q = 'cassandra.query.'
+harness('C38', 'key-parts-packed-as-cassandra-composite', functions=[_Q + 'Statement._set_routing_key', _Q + 'Statement._key_parts_packed', _Q + 'BoundStatement.routing_key'],
+        native='contracts.native.c30:replay')(_C30.routing_key)
